@@ -62,6 +62,9 @@ type Plan struct {
 	Tasks     []TSpec     `json:"tasks"`
 	Script    []c05.ExtOp `json:"script"`
 	ErroredAt int         `json:"erroredat"` // inject an Errored event instead of the n-th delivered batch (-1: never)
+	// RaceCancel (with ErroredAt): Run's context is cancelled at the very instant the failing batch is handed to the
+	// runtime: Run must return (nil or the watch failure) whichever of the two it notices first.
+	RaceCancel bool `json:"racecancel,omitempty"`
 	CancelMs  int         `json:"cancelms"`  // cancel the run context at this instant (-1: only at the end)
 }
 
@@ -127,6 +130,7 @@ func Gen(t *rapid.T) Plan {
 	switch rapid.IntRange(0, 5).Draw(t, "ending") {
 	case 0:
 		p.ErroredAt = rapid.IntRange(0, 12).Draw(t, "erroredat")
+		p.RaceCancel = rapid.Bool().Draw(t, "racecancel")
 	case 1, 2:
 		p.CancelMs = rapid.SampledFrom([]int{0, 1, 300, 510, 1000, 2500, 7000, 20000}).Draw(t, "cancelms")
 	}
@@ -207,10 +211,16 @@ func (s taskSpec) RunTask(ctx context.Context, _ *zap.Logger, _ struct{}) error 
 
 //nolint:gocyclo,gocognit,cyclop,maintidx
 func runBubble(p Plan) (v hk.Verdict) {
+	var raceCancel func()
+
 	wo := sim.WorldOptions{}
 	if p.ErroredAt >= 0 {
 		wo.InjectErrored = func(n int) error {
 			if n == p.ErroredAt {
+				if p.RaceCancel && raceCancel != nil {
+					raceCancel()
+				}
+
 				return errInjectedWatch
 			}
 
@@ -223,6 +233,13 @@ func runBubble(p Plan) (v hk.Verdict) {
 		v.Failf("harness: %v", err)
 
 		return v
+	}
+
+	raced := false
+	raceCancel = func() {
+		raced = true
+
+		w.Cancel()
 	}
 
 	writer := func(name string) func(ctx context.Context, r controller.Writer, n int) {
@@ -376,6 +393,26 @@ func runBubble(p Plan) (v hk.Verdict) {
 
 	if !cancelled {
 		w.Quiesce(40)
+	}
+
+	if raced {
+		// the context was cancelled at the instant the failing batch was handed over: this is a cancelled run
+		cancelled = true
+
+		synctest.Wait()
+
+		done, rerr := w.RunResult()
+
+		switch {
+		case !done:
+			v.Failf("(iv) Run did not return after a cancellation that raced the watch failure (batch #%d)", p.ErroredAt)
+
+			return v
+		case rerr != nil && !strings.Contains(rerr.Error(), errInjectedWatch.Error()):
+			v.Failf("(iii) Run returned %v after a cancellation that raced the watch failure, want nil or the watch failure", rerr)
+		}
+
+		v.Label("cancel-raced-watch-failure")
 	}
 
 	log, cur := w.Snapshot()
